@@ -203,6 +203,9 @@ def run(ctx, P):
     r2.events_are_lossless(ctx, P, "C17h", chan_suffix="HostnameResolutionEvent", floor=2)
     _f5.check_single_folding(ctx, P, {"hostname_resolvers", "addr"}, "C17a.F5.single-folding")
     c13.clause_stop_paths(ctx, P, "C17g")
+    r2.address_types_come_in_pairs(ctx, P, "C17i")
+    from . import c19
+    c19.clause_a(ctx, P)       # the doubling schedule of the hostname search (shared with C19)
     from . import c03
     c03.clause_e(ctx, P)       # cache-flush one-second rule, per interface and per record type (shared)
     f5.run_f5(ctx, P, {"addr"}, rule="C17a.F5.key-normalised", floor=8)
